@@ -780,8 +780,16 @@ class Interp:
                     v = _elem_value(self, st, arr, idx.term)
                 else:
                     v = Opaque('?', 'index')
-                if n + 1 < len(ps):
-                    raise InterpError('projection after index')
+                for pe2 in ps[n + 1:]:
+                    # `notes[i].0`, `table[i].1`: field / deref steps on the element just read
+                    if isinstance(v, RefV) and pe2['k'] == 'deref':
+                        v = self.deref(st, v)
+                    elif pe2['k'] == 'field' and isinstance(v, StructV) and pe2['i'] < len(v.fields):
+                        v = v.fields[pe2['i']]
+                    elif pe2['k'] == 'field' and isinstance(v, TupleV) and pe2['i'] < len(v.items):
+                        v = v.items[pe2['i']]
+                    else:
+                        raise InterpError('projection after index')
                 return v
         cont, key = self.resolve(st, frame, place)
         v = cont[key] if not isinstance(cont, dict) or key in cont else None
@@ -1655,7 +1663,10 @@ class Interp:
             return    # no abstract iteration reaches the back edge: nothing assigned in the loop survives an iteration
         if info is not None and info.get('reductions'):
             fr.loop_summaries[head] = info['reductions']
-        self.apply_havoc(st, fr, head, places, info.get('ranges') if info else None)
+        sym_of = self.apply_havoc(st, fr, head, places, info.get('ranges') if info else None)
+        for n_, lim_ in ((info or {}).get('rel') or {}).items():
+            if n_ in sym_of:
+                st.ctx.assume(cmp_term('Le', Poly.atom(sym_of[n_]), lim_))
 
     def loop_ranges(self, st, fr, cfg, head, places):
         """interval invariants of the integer places assigned in the loop: Kleene iteration with widening after three
@@ -1679,10 +1690,15 @@ class Interp:
         init = dict(cur)
         self.fixpoint_depth += 1
 
+        rel = {}    # counter place -> loop-invariant limit with counter <= limit at the loop head (see below)
+
         def probe(ranges):
             s2 = st.fork()
             f2 = s2.frames[depth]
             sym_of = self.apply_havoc(s2, f2, head, places, ranges)
+            for n_, lim_ in rel.items():
+                if n_ in sym_of:
+                    s2.ctx.assume(cmp_term('Le', Poly.atom(sym_of[n_]), lim_))
             f2.bb = head
             f2.entered_loops.add(head)
             s2.probe = (depth, head, frozenset(cfg.loops[head]))
@@ -1717,6 +1733,14 @@ class Interp:
                 stable = True
                 for n, (lo, hi) in post.items():
                     olo, ohi = new[n]
+                    try:
+                        cont_, k_ = self.resolve(st, fr, places[n])
+                        tlo_, thi_ = INT_RANGES[cont_[k_].ty]
+                        # the place holds a value of its type: an arithmetic result outside it never reaches the back edge
+                        # (checked arithmetic leaves by the panic edge, unchecked arithmetic is a `wrap` term with its own range)
+                        lo, hi = max(lo, Fr(tlo_)), min(hi, Fr(thi_))
+                    except (InterpError, KeyError, AttributeError):
+                        pass
                     nlo, nhi = min(lo, olo), max(hi, ohi)
                     if (nlo, nhi) != (olo, ohi):
                         stable = False
@@ -1769,11 +1793,14 @@ class Interp:
                             if lhi < cur[n][1]:
                                 cur[n] = (cur[n][0], lhi)
                                 refined = True
+                            if n not in rel:
+                                rel[n] = lim
+                                refined = True
                         if refined:
                             sym_of, backs, post = probe(cur)
                     except InterpError:
                         pass
-                    info = {'ranges': cur, 'no_iteration': not backs, 'reductions': []}
+                    info = {'ranges': cur, 'no_iteration': not backs, 'reductions': [], 'rel': dict(rel)}
                     if backs:
                         info['reductions'] = self.recognise_reductions(st, fr, places, idx, sym_of, backs, depth, getattr(self, '_probe_exits', None))
                     # ranking function: an integer place that strictly decreases (or strictly increases) on EVERY back edge of
